@@ -99,9 +99,62 @@ class Session:
         h[RJSON + '.vAssert'] = self._assert
         h[RJSON + '.vReach'] = self._reach
         h[RJSON + '.vNumValue'] = self._numvalue
+        h[RJSON + '.vNondetUint64'] = lambda ex, st, fr, ins, a: self._nondet(st, a, 64)
+        h[RJSON + '.vAssertRounded'] = self._assert_rounded
         h[RJSON + '.vNumOverflows'] = self._numovf
         for k in list(h):
             h[k.replace(RJSON, FP)] = h[k]
+
+    def use_bits_intrinsics(self):
+        """math/bits.Mul64 and LeadingZeros64 as term-level intrinsics (the Go bodies split into
+        32-bit halves / use table lookups, which is needless work for the integer encoding)"""
+        ex = self.ex
+
+        def mul64(ex, st, fr, ins, args):
+            x, y = args
+            return ('U', (ex.store.mk('mulhi', 64, x, y), ex.store.mk('mul', 64, x, y)))
+
+        def clz64(ex, st, fr, ins, args):
+            x = args[0]
+            if x.__class__ is not Term:
+                return 64 - x.bit_length()
+            _, lo, hi, _ = ex.solver.lia.conv(x)
+            if lo > 0 and lo.bit_length() == hi.bit_length():
+                return 64 - lo.bit_length()
+            raise Unsupported('LeadingZeros64 of a value whose bit length is not fixed')
+        ex.hooks['math/bits.Mul64'] = mul64
+        ex.hooks['math/bits.LeadingZeros64'] = clz64
+        ex.concretise_shifts = True
+        ex.lazy_forks = True
+
+    def _assert_rounded(self, ex, st, fr, ins, args):
+        from .fpspec import check_rounded
+        man, e10, neg, bits, idv = args
+        aid = bytes(idv[1]).decode()
+        rec = self.asserts.setdefault(aid, [0, 0])
+        e10 = sgn(e10, 64)
+        res = check_rounded(self, st, man, e10, neg, bits)
+        self.obligations = getattr(self, 'obligations', 0) + len(res)
+        ok = True
+        for verdict, info in res:
+            if verdict == 'unsat':
+                continue
+            ok = False
+            bad = st.fork()
+            bad.status = 'assertfail'
+            bad.result = (aid, ins['pos'])
+            if verdict == 'sat':
+                # pin the witness so that the generic candidate pipeline reproduces it
+                for t in st.nondet:
+                    val = ex.store.evaluate(t, info['assign'])
+                    bad.extras = bad.extras + (ex.store.mk('eq', 0, t, val),)
+            else:
+                bad.inexact = True
+            ex.finish(bad)
+            rec[1] += 1
+        if ok:
+            rec[0] += 1
+        return None
 
     def use_float_contract(self):
         """replace fp.ParseJSONFloatPrefix by the harness contract vFloatStub"""
